@@ -2,6 +2,7 @@ import CssVerif.Lemmas.Codec
 import CssVerif.Lemmas.CodecInc
 import CssVerif.Lemmas.CodecEnc
 import CssVerif.Lemmas.CodecAgree
+import CssVerif.Lemmas.CodecStream
 /-!
 # C07 — CSS codec: detection follows CSS 2.1 §4.4, early answers are never revised
 
@@ -269,6 +270,83 @@ theorem roundtrip_given_chunked (g : Name) (c : CName) (ts bs : List (List Nat))
   rw [decoder_chunking_cpython, hb, encoder_chunking_cpython]
   exact roundtrip_given g c ts.flatten hl henc
 
+
+/-! ## the stream classes (`StreamReader`, `StreamWriter`; `Model/CodecStream.lean`) -/
+
+/-- T7.7 the stream reader, for EVERY way the stream hands out the bytes and every `encoding` / `force`: what
+`read()` returns is a prefix of one-shot `decode` of the whole data (nothing wrong is ever handed out) … -/
+theorem stream_reader_prefix (I : Inner) (given : Option Name) (force : Bool) (cs : List (List Nat)) :
+    ∃ ext, oneShot I given force cs.flatten = readAll I given force cs ++ ext :=
+  readAll_prefix I given force cs
+
+/-- … and exactly the one-shot result as soon as the whole data lets the reader start (`¬ RUnd`: the encoding
+is detected and the text does not end inside a possible `@charset` rule — the codecs stream API has no
+end-of-data signal, so such data stays buffered) and the inner decoder has nothing pending at the end.
+`_partial`: the statement without the two hypotheses is false for the code (no `final` in `StreamReader.decode`). -/
+theorem stream_reader_complete_partial (I : Inner) (given : Option Name) (force : Bool) (cs : List (List Nat))
+    (hstart : ¬ RUnd I given force cs.flatten)
+    (hpend : I.out (finalEnc given force cs.flatten) cs.flatten true =
+             I.out (finalEnc given force cs.flatten) cs.flatten false) :
+    readAll I given force cs = oneShot I given force cs.flatten :=
+  readAll_complete I given force cs hstart hpend
+
+/-- T7.7 (writer): for every chunking of the text what the stream writer has written is a prefix of one-shot
+`encode` … -/
+theorem stream_writer_prefix (I : InnerEnc) (given : Option Name) (cs : List (List Nat)) :
+    ∃ ext, encodeOneShot I given cs.flatten = writeAll I given cs ++ ext :=
+  writeAll_prefix I given cs
+
+/-- … and exactly the one-shot bytes as soon as the whole text lets the writer start (`¬ WUnd`) and the inner
+encoder adds nothing at the end of the data -/
+theorem stream_writer_complete_partial (I : InnerEnc) (given : Option Name) (cs : List (List Nat))
+    (hstart : ¬ WUnd given cs.flatten)
+    (hfin : I.out (finalE given cs.flatten) (finalT given cs.flatten) true =
+            I.out (finalE given cs.flatten) (finalT given cs.flatten) false) :
+    writeAll I given cs = encodeOneShot I given cs.flatten :=
+  writeAll_complete I given cs hstart hfin
+
+/-- T7.1 through the stream classes over CPython's codecs: a text written chunk by chunk with
+`getwriter("css")(…, encoding=g)` and read back through `getreader("css")(…, encoding=g)` from a stream that hands
+out the bytes in ANY pieces is the text with the `@charset` name rewritten — for every known `g`, every
+encodable text that does not end inside a possible `@charset` rule, every chunking on both sides -/
+theorem stream_roundtrip (g : Name) (c : CName) (ts bs : List (List Nat)) (hl : lookupName g = some c)
+    (henc : (encScan c.kind (fixFinal ts.flatten g)).2 = true)
+    (hstart : ¬ WUnd (some g) ts.flatten)
+    (hb : bs.flatten = writeAll cpyInnerEnc (some g) ts) :
+    readAll cpyInner (some g) true bs = fixFinal ts.flatten g := by
+  have hq := lookup_written_noquote g c hl
+  -- the text is accepted by the rewriter, so is its rewritten form, and that is not empty
+  obtain ⟨r, hr⟩ : ∃ r, fixEncoding ts.flatten g false = some r := by
+    cases h : fixEncoding ts.flatten g false with
+    | none => exact absurd h hstart
+    | some r => exact ⟨r, rfl⟩
+  have hrf : fixFinal ts.flatten g = r := by
+    have := fixFinal_of_early ts.flatten [] g r hr
+    simpa using this
+  have hne : fixFinal ts.flatten g ≠ [] := by rw [hrf]; exact fix_some_ne_nil _ _ _ hr
+  have hr2 : fixEncoding (fixFinal ts.flatten g) g false = some (fixFinal ts.flatten g) := by
+    rw [hrf]; exact fixEncoding_twice _ g r hq hr
+  -- writer = one-shot encode
+  have hw : writeAll cpyInnerEnc (some g) ts = c.bom ++ (encScan c.kind (fixFinal ts.flatten g)).1 := by
+    rw [stream_writer_complete_partial cpyInnerEnc (some g) ts hstart]
+    · simp [encodeOneShot, cpyInnerEnc, cpyEncOut, hl, encOut]
+    · simp [finalE, finalT, cpyInnerEnc, cpyEncOut, hl, encOut, hne]
+  have hout : ∀ f, cpyInner.out g bs.flatten f = fixFinal ts.flatten g := by
+    intro f
+    simp only [cpyInner, cpyOut, hl, hb, hw, incOut_encode_f c _ f henc]
+  have hfe : finalEnc (some g) true bs.flatten = g := rfl
+  rw [stream_reader_complete_partial cpyInner (some g) true bs]
+  · rw [hb, hw]
+    have := roundtrip_given g c ts.flatten hl henc
+    have e1 : encodeOneShot cpyInnerEnc (some g) ts.flatten = c.bom ++ (encScan c.kind (fixFinal ts.flatten g)).1 := by
+      simp [encodeOneShot, cpyInnerEnc, cpyEncOut, hl, encOut]
+    rw [e1] at this
+    exact this
+  · unfold RUnd
+    simp only [choose, hout false, hr2]
+    simp
+  · rw [hfe, hout true, hout false]
+
 /-! non-vacuity: the hypotheses above are met by ordinary inputs -/
 /-- an inner codec satisfying the `Inner` laws exists (identity, e.g. latin-1 on bytes) -/
 def idInner : Inner := ⟨fun _ b _ => b, fun _ a b _ => ⟨b, rfl⟩, fun _ => rfl⟩
@@ -297,5 +375,14 @@ example : (encScan (CName.plain .u8).kind (fixFinal (prefix10 ++ [0x78, 0x22, 0x
 example : oneShot cpyInner (some (cps' "utf-8")) true
     (encodeOneShot cpyInnerEnc (some (cps' "utf-8")) (prefix10 ++ [0x78, 0x22, 0x3B, 0xE9])) =
     prefix10 ++ cps' "utf-8" ++ [0x22, 0x3B, 0xE9] := by decide
+/-- stream classes: `a{}` in utf-16 written in two pieces, read back byte pairs at a time -/
+example : ¬ WUnd (some (cps' "utf-16")) ([[0x61], [0x7B, 0x7D]] : List (List Nat)).flatten := by decide
+example : writeAll cpyInnerEnc (some (cps' "utf-16")) [[0x61], [0x7B, 0x7D]] = [0xFF, 0xFE, 0x61, 0, 0x7B, 0, 0x7D, 0] := by
+  decide
+example : readAll cpyInner none true [[0xFF], [0xFE, 0x61], [0, 0x7B, 0], [0x7D, 0]] = [0x61, 0x7B, 0x7D] := by decide
+example : ¬ RUnd cpyInner none true ([[0xFF], [0xFE, 0x61], [0, 0x7B, 0], [0x7D, 0]] : List (List Nat)).flatten := by
+  decide
+/-- … and the data that stays buffered: an open `@charset` rule -/
+example : readAll cpyInner none true [[0x40, 0x63, 0x68]] = [] ∧ RUnd cpyInner none true [0x40, 0x63, 0x68] := by decide
 
 end CssVerif.C07
